@@ -27,7 +27,7 @@ ASSUMPTIONS = ['fetch margins (fragment_size) are at least the longest simulated
                'per-run molecule identifiers (mi), the per-job index (ix) and the @PG header may differ',
                'worker schedules are sampled (distinct completion orders observed are counted)']
 MIN_NONTRIVIAL = {'quick': 40, 'thorough': 2500}
-REQUIRED_MONITORS = ['run:serial', 'run:contig_per_process', 'run:tiling_pool', 'run:tiling_nopool', 'records:compared', 'jobs:observed',
+REQUIRED_MONITORS = ['run:serial', 'run:restricted_to_one_contig', 'run:contig_per_process', 'run:tiling_pool', 'run:tiling_nopool', 'records:compared', 'jobs:observed',
                      'ownership:records_checked', 'edge:sites_on_bin_edges']
 SHARD_TIMEOUT = {'quick': 900, 'thorough': 7200}
 IGNORE_TAGS = {'mi', 'ix'}
@@ -48,7 +48,8 @@ def run_case(case):
     r = rng(case['seed'], 'C08', case['i'])
     method = r.choice(['nla', 'nla', 'chic'])
     seg = r.choice([500, 1000, 2500, 20000])
-    contigs = [(f'chr{j + 1}', r.choice([4000, 9000, 21000])) for j in range(r.randint(1, 4))]
+    # contig names that contain each other (chr1 / chr10, chr2 / chr21) as real references have
+    contigs = [(nm, r.choice([4000, 9000, 21000])) for nm in ['chr1', 'chr10', 'chr2', 'chr21'][:r.randint(1, 4)]]
     max_frag = 300
     # sites at bin edges of the tiling (-1/0/+1) and elsewhere
     gen = F.Genome(r, contigs)
@@ -102,7 +103,11 @@ def run_case(case):
         bam = write_bam(os.path.join(dd, 'in.bam'), gen.refs, recs)
         # ---------------------------------------------------------------- serial
         out_s = os.path.join(dd, 'serial.bam')
-        exc, txt = T.run_cli([bam, '-o', out_s, '-method', method, '-umi_hamming_distance', '1'])
+        # a third of the cases restrict the run to one contig (-contig): every way of running must restrict itself to the same records
+        restrict = ['-contig', r.choice(contigs)[0]] if r.random() < 0.35 else []
+        cfg0['restricted_to'] = restrict[1] if restrict else None
+        acc.count('run:restricted_to_one_contig', 1 if restrict else 0)
+        exc, txt = T.run_cli([bam, '-o', out_s, '-method', method, '-umi_hamming_distance', '1'] + restrict)
         acc.count('run:serial')
         if exc is not None:
             acc.violate('serial-run-raised', f'serial tagger raised {exc!r} ({cfg0})', {'config': cfg0})
@@ -175,7 +180,7 @@ def run_case(case):
         ev1 = os.path.join(dd, 'ev1.jsonl')
         cfg = {'mode': 'contig_per_process', 'workers': k, 'delay_seed': case['i']}
         captured = {}
-        exc, txt = T.run_cli([bam, '-o', out_p, '-method', method, '-umi_hamming_distance', '1', '--multiprocess', '-tagthreads', str(k), '-temp_folder', dd],
+        exc, txt = T.run_cli([bam, '-o', out_p, '-method', method, '-umi_hamming_distance', '1', '--multiprocess', '-tagthreads', str(k), '-temp_folder', dd] + restrict,
                              event_file=ev1, delay_seed=case['i'])
         acc.count('run:contig_per_process')
         if exc is not None:
@@ -192,7 +197,7 @@ def run_case(case):
         try:
             with contextlib.redirect_stdout(io.StringIO()), contextlib.redirect_stderr(io.StringIO()):
                 btm.run_multiome_tagging_cmd([bam, '-o', os.path.join(dd, 'unused.bam'), '-method', method, '-umi_hamming_distance', '1', '--multiprocess',
-                                              '-temp_folder', dd])
+                                              '-temp_folder', dd] + restrict)
         finally:
             btm.tag_multiome_multi_processing = real
         for ti in range(2):
